@@ -242,7 +242,7 @@ def star_expr(c):
 
 
 K.FAMILIES["star"] = (gen_star_case, run_star_impl, star_expr)
-K.HEADER = K.HEADER.replace("Tank Arc QTank Run.", "Tank Arc QTank Distrib Run.")
+K.add_imports("Distrib")
 
 
 # ---------------------------------------------------------------------------
